@@ -4,6 +4,7 @@ package c20
 import (
 	"encoding/json"
 	"fmt"
+	redispb "github.com/samaritan-proxy/samaritan/pb/config/protocol/redis"
 	"github.com/samaritan-proxy/samaritan/proc"
 	"net"
 	"testing"
@@ -35,11 +36,12 @@ type sop struct {
 }
 
 type statCase struct {
-	Kind    string `json:"kind"` // redis, tcp
-	Masters int    `json:"masters"`
-	Limit   int    `json:"limit"`
-	EndStop bool   `json:"end_with_stop"` // quiescence by Stop() with connections open instead of closing the clients
-	Ops     []sop  `json:"ops"`
+	Kind     string `json:"kind"` // redis, tcp
+	Masters  int    `json:"masters"`
+	Limit    int    `json:"limit"`
+	EndStop  bool   `json:"end_with_stop"`      // quiescence by Stop() with connections open instead of closing the clients
+	Compress bool   `json:"compress,omitempty"` // Redis service with transparent compression enabled: APPEND, EVAL, SETBIT, GETBIT, SETRANGE, GETRANGE are refused
+	Ops      []sop  `json:"ops"`
 }
 
 func counter(svc, path string) uint64 { return statpurge.Counter(svc, path) }
@@ -48,7 +50,7 @@ func gauge(svc, path string) uint64 { return statpurge.Gauge(svc, path) }
 
 type statInfo struct {
 	redirected, backendFailure, rejected, stopWithOpen, clientGone, massClose bool
-	midQuiescent                                                             int
+	midQuiescent                                                              int
 }
 
 func checkStats(c statCase) (inf statInfo, v *verdict) {
@@ -65,7 +67,11 @@ func checkStats(c statCase) (inf statInfo, v *verdict) {
 		}
 		defer w.Close()
 		w.AssignEven(w.Masters())
-		px, err := sim.StartProxy(sim.ProxyOpts{Seeds: w.AllAddrs(), ConnLimit: uint32(c.Limit), ConnectTimeout: 100 * time.Millisecond})
+		popts := sim.ProxyOpts{Seeds: w.AllAddrs(), ConnLimit: uint32(c.Limit), ConnectTimeout: 100 * time.Millisecond}
+		if c.Compress {
+			popts.Compression = &redispb.Compression{Enable: true, Algorithm: redispb.Compression_SNAPPY, Threshold: 16}
+		}
+		px, err := sim.StartProxy(popts)
 		if err != nil {
 			return inf, &verdict{"proxy-start", err.Error()}
 		}
@@ -151,7 +157,7 @@ func checkStats(c statCase) (inf statInfo, v *verdict) {
 			}
 		}
 		if c.Kind == "redis" {
-			for _, cmd := range []string{"get", "set", "mget", "mset", "del", "incr", "ping", "lpush", "scan", "eval"} {
+			for _, cmd := range []string{"get", "set", "mget", "mset", "del", "incr", "ping", "lpush", "scan", "eval", "append", "getrange", "setbit", "hset", "hgetall"} {
 				t, s, e := counter(svc, "redis."+cmd+".total"), counter(svc, "redis."+cmd+".success"), counter(svc, "redis."+cmd+".error")
 				if t != s+e {
 					return fmt.Sprintf("redis.%s.total = %d but success %d + error %d", cmd, t, s, e)
@@ -495,7 +501,7 @@ func closeTogether(cls []*sim.Client, salt int) {
 
 func genStats(t *rapid.T) statCase {
 	c := statCase{Kind: rapid.SampledFrom([]string{"redis", "redis", "tcp"}).Draw(t, "kind"), Masters: rapid.IntRange(1, 3).Draw(t, "masters"),
-		Limit: rapid.SampledFrom([]int{0, 0, 1, 2, 3}).Draw(t, "limit"), EndStop: rapid.Bool().Draw(t, "endstop")}
+		Limit: rapid.SampledFrom([]int{0, 0, 1, 2, 3}).Draw(t, "limit"), EndStop: rapid.Bool().Draw(t, "endstop"), Compress: rapid.IntRange(0, 3).Draw(t, "compress") == 0}
 	key := func() string { return fmt.Sprintf("k%d", rapid.IntRange(0, 5).Draw(t, "k")) }
 	n := rapid.IntRange(2, 20).Draw(t, "n")
 	for i := 0; i < n; i++ {
@@ -521,7 +527,7 @@ func genStats(t *rapid.T) statCase {
 		case x <= 11:
 			o.Op = "cmds"
 			for k, m := 0, rapid.IntRange(1, 12).Draw(t, "m"); k < m; k++ {
-				switch rapid.IntRange(0, 9).Draw(t, "cmd") {
+				switch rapid.IntRange(0, 10).Draw(t, "cmd") {
 				case 0:
 					o.Cmds = append(o.Cmds, []string{"GET", key()})
 				case 1:
@@ -540,6 +546,20 @@ func genStats(t *rapid.T) statCase {
 					o.Cmds = append(o.Cmds, []string{"INCR", key()})
 				case 8:
 					o.Cmds = append(o.Cmds, []string{"LPUSH", key(), "x"}) // wrong type errors from the backend
+				case 9:
+					// commands that a service with compression refuses (and plain ones otherwise), and a compressible value
+					switch rapid.IntRange(0, 4).Draw(t, "ccmd") {
+					case 0:
+						o.Cmds = append(o.Cmds, []string{"APPEND", key(), "x"})
+					case 1:
+						o.Cmds = append(o.Cmds, []string{"GETRANGE", key(), "0", "1"})
+					case 2:
+						o.Cmds = append(o.Cmds, []string{"EVAL", "return 1", "1", key()})
+					case 3:
+						o.Cmds = append(o.Cmds, []string{"SETBIT", key(), "1", "1"})
+					default:
+						o.Cmds = append(o.Cmds, []string{"SET", key(), strings.Repeat("ab", 40)})
+					}
 				default:
 					o.Cmds = append(o.Cmds, []string{"PING"})
 				}
